@@ -115,6 +115,19 @@ def gather_cases(tier):
                 for res in (("ta" * n)[:n], ("at" * n)[:n], "a" * n):
                     for mc in (1, 2):
                         yield dict(kind="gather", n=n, es=es, res=res, mc=mc, k=2, setup=list(st))
+    # one of the concurrent awaits fails (a root node raises for await #0's argument) while sibling nodes / awaits are in flight:
+    # the others are unaffected and the loop thread is never blocked on a running node
+    for n in (2, 3):
+        for es in shapes(n):
+            if len(es) > 1:
+                continue
+            for res in all_res(n):
+                if "a" not in res:
+                    continue
+                for f in range(n):
+                    if any(e[1] == f for e in es):
+                        continue  # the failing node must be a root (it sees the DAG argument)
+                    yield dict(kind="gather", n=n, es=es, res=res, mc=2, k=2, failing=f)
     # one AsyncDAG execution, wide shapes, EVERY completion order (the await-based wait must release successors exactly like the blocking one)
     for es in shapes(4):
         if len(es) > 3 or not es:
@@ -140,6 +153,10 @@ def run_gather(acc, c, only_prefix=None):
     d, ns = build_gprog(p)
     src = p.source()
     argv = [f"arg{i}" for i in range(k)]
+    H.FAIL_IF_ARG.clear()
+    failing = c.get("failing")
+    if failing is not None:
+        H.FAIL_IF_ARG[ids[failing]] = "arg0"
     sc = StateCounter()
     holder = {}
 
@@ -190,7 +207,14 @@ def run_gather(acc, c, only_prefix=None):
         for e in res.trace:
             if e[0] == "enter":
                 by_serial.setdefault(e[2], []).append(e)
+        if res.forced:
+            acc.violation(V("loop_blocked", "the loop thread blocked on a running node outside the awaits (it had to be completed by force): "
+                            "sibling coroutines are starved"), c, pfx, res.trace, src)
         for i, (st, val) in enumerate(res.value):
+            if failing is not None and i == 0:
+                if st != "exc":
+                    acc.violation(V("failure_swallowed", f"await #0 must raise (node {ids[failing]} fails for its argument), returned {val!r}"), c, pfx, res.trace, src)
+                continue
             if st != "ok":
                 acc.violation(V("await_raised", f"await #{i} raised {val!r}"), c, pfx, res.trace, src)
                 continue
@@ -219,6 +243,7 @@ def run_gather(acc, c, only_prefix=None):
         if len(res.choices) >= 1:
             acc.mark_nontrivial((repr(c), pfx))
         acc.stall(res)
+    H.FAIL_IF_ARG.clear()
     if nex >= 3000:
         acc.extra["gather_caps"] = acc.extra.get("gather_caps", 0) + 1
     s_, t_ = sc.counts()
